@@ -26,6 +26,9 @@ EXTRA = {
  5: '''
 ADDITIONAL GUIDANCE for this round: four earlier rounds already tried single-line arithmetic/mask/index slips, hidden-state and multi-component slips, rarely used instruction forms, unusual register configurations, the C binding of the host API, missing callbacks, the order of effects inside one instruction, long horizons and large counts, exact constants, error paths and default arguments. Look for what is still left, in the shape of a plausible CLEAN-UP or MODERNISATION commit: hand-written bit manipulation replaced by a helper or a standard-library call that differs for one input; a local or parameter changing width or signedness (u16 <-> u32 <-> s32, int <-> std::size_t); a value hoisted or cached before a statement that modifies what it was computed from; two similar functions, overloads or switch arms merged although they differed in one detail; a switch turned into a table with one entry wrong; an inclusive bound turned exclusive; initialisation moved between constructor, member initialiser and Reset; a std::function / lambda capturing by value what was captured by reference (or the reverse); a lock scope narrowed or a flag read outside it; an early return added in front of a side effect. Prefer an effect that shows only in COMBINATION with something else the property quantifies over (an interrupt or context switch in between, a bank or page switch, a second component active in the same cycle, the other thread at a particular point, a particular earlier call). Less-travelled places are welcome: src/teakra.cpp, src/teakra_c.cpp, src/memory_interface.cpp, src/shared_memory.h, src/ahbm.cpp, src/dma.cpp, src/btdmp.cpp, src/apbp.cpp, src/timer.cpp, src/processor.cpp, src/register.h, src/matcher.h, src/decoder.h, src/parser.cpp, src/disassembler.cpp, src/core_timing.h and the tools. The change must still be a plausible maintenance slip (not sabotage), and the two changes must use different mechanisms and preferably different files from each other.
 ''',
+ 6: '''
+ADDITIONAL GUIDANCE for this round: five earlier rounds already tried single-line arithmetic/mask/index slips, hidden-state and multi-component slips, rarely used instruction forms, unusual register configurations, the C binding, missing callbacks, the order of effects inside one instruction, long horizons, exact constants, error paths, default arguments, and clean-up style commits (helpers, width/signedness changes, hoisting, merged switch arms, tables, bounds, initialisation moves, lambda captures, lock scopes, early returns). Look for what is still left. Directions that have been tried least: (1) behaviour that depends on what the SAME object did many calls or instructions earlier (a memo/cache keyed too coarsely, a lazily built table, a static or thread_local, a flag that is only cleared on one of two exits), or on a SECOND emulator instance living in the same process; (2) 32-bit quantities at and above 2^31 (timer counters and start values, DMA and AHBM addresses, external addresses, cycle counts passed to Run, skip counts), and 64-bit intermediate values of the 40-bit datapath; (3) the VALUE of the second program word / immediate (a particular immediate, address or bit pattern in it), conditions (the 16 condition codes under rare flag combinations), and combinations of addressing features (modulo + step2 modes + bit reversal + offset forms together); (4) two events in the SAME cycle or the same call whose relative order is observable (two timers, timer + audio port, DMA completion + mailbox, two host callbacks), and host API calls made in an unusual but legal order (before the first Reset, callbacks installed or replaced late, the same call twice in a row, a call made from inside a callback); (5) the tools and text paths (src/makedsp1, src/dsp1_reader, src/coff_reader, src/parser.cpp number/sign handling of immediates, src/disassembler.cpp rendering of particular immediates or addresses, src/test_generator.cpp, src/test_verifier) where the property speaks about them. The change must still be a plausible maintenance slip (not sabotage), need something specific to manifest, and the two changes must use different mechanisms and preferably different files from each other.
+''',
 }
 
 
